@@ -28,8 +28,8 @@
 (*   Toks(t, m)    tokens [s, sp] under layout m in {"canon","tight","wide"}*)
 (*   PrintToks(t)  == Toks(Par(t), "canon")   minimal-paren printing       *)
 (*   ParseTop(ts,ctx) precedence climbing parser over [s, sp] tokens:      *)
-(*                 expressions (PExpr..) and statements (PStmt, PSimple,   *)
-(*                 PIf, PFor, PSwitch, PBlock)                             *)
+(*                 expressions (PExpr..), statements (PStmt, PSimple, PIf, *)
+(*                 PFor, PSwitch, PBlock) and files (PFile, PFuncDecl, ..) *)
 (*   Strip(t)      remove ParenExpr                                        *)
 (*   Spans(t)      preorder list of [k, f, l] first/last token per node    *)
 (*   Preorder(t), WalkEvents(t)   traversal order (with "nil" markers)     *)
@@ -393,7 +393,7 @@ RECURSIVE Size(_)
 Size(t) == (IF Real(t) THEN 1 ELSE 0) + (IF t.c = <<>> THEN 0 ELSE LET S[i \in 0..Len(t.c)] == IF i = 0 THEN 0 ELSE S[i - 1] + Size(t.c[i]) IN S[Len(t.c)])
 
 -----------------------------------------------------------------------------
-(* PARSER (parser/parser.go: expressions, then statements).  Tokens [s, sp]  *)
+(* PARSER (parser/parser.go: expressions, statements, files).  Tokens [s,sp] *)
 (* (sp = white space precedes the token).  Every operator returns           *)
 (* [t |-> tree, p |-> index of the next token]; an error yields a BadExpr   *)
 (* and jumps behind the end, so the final tree differs from every           *)
@@ -419,7 +419,8 @@ CompositeOK(x, lev) == (x.k \in {"Ident", "SelectorExpr", "IndexExpr", "IndexLis
 RECURSIVE PExpr(_, _, _), PRange(_, _, _), PBin(_, _, _, _), PBinLoop(_, _, _, _), PUnary(_, _, _),
           PPrimary(_, _, _), PPost(_, _, _), POperand(_, _, _), PArgs(_, _, _, _), PCmdArgs(_, _, _, _),
           PTuple(_, _, _, _), PExprs(_, _, _, _), PBracket(_, _, _), PSliceMat(_, _, _, _, _), PFors(_, _, _, _),
-          PBrace(_, _, _, _), PElems(_, _, _, _, _), PElement(_, _, _), PValue(_, _, _, _), PType(_, _)
+          PBrace(_, _, _, _), PElems(_, _, _, _, _), PElement(_, _, _), PValue(_, _, _, _), PType(_, _),
+          PParams(_, _), PParamList(_, _, _), PSignature(_, _), PFuncLit(_, _), PBlock(_, _), PIdents(_, _, _)
 
 \* parseType (the subset used by literals and assertions)
 PType(ts, p) ==
@@ -434,6 +435,43 @@ PType(ts, p) ==
          IF At(ts, k.p).s # "]" THEN Err(ts) ELSE LET v == PType(ts, k.p + 1) IN R(N("MapType", "", <<k.t, v.t>>), v.p)
     [] s = "(" -> LET x == PType(ts, p + 1) IN IF At(ts, x.p).s = ")" THEN R(N("ParenExpr", "", <<x.t>>), x.p + 1) ELSE Err(ts)
     [] OTHER -> Err(ts)
+
+\* parseParameters (the forms the model generates: `a, b T`, `c ...T`, unnamed types); p at "("
+Fld1(names, ty) == N("Field", "", <<Lst(",", names), ty, Nil>>)
+RECURSIVE PIdentsL(_, _, _)
+\* identifiers separated by commas, as long as an identifier follows the comma
+PIdentsL(ts, p, acc) ==
+  IF At(ts, p + 1).s = "," /\ At(ts, p + 2).s \in IdentNames /\ At(ts, p + 3).s # "."
+  THEN PIdentsL(ts, p + 2, Append(acc, Id(At(ts, p).s))) ELSE [l |-> Append(acc, Id(At(ts, p).s)), p |-> p + 1]
+PParamList(ts, p, acc) ==
+  IF At(ts, p).s = ")" THEN [l |-> acc, p |-> p + 1]
+  ELSE
+    LET grp ==
+      IF At(ts, p).s \in IdentNames /\ At(ts, p + 1).s # "." THEN
+        LET ids == PIdentsL(ts, p, <<>>)
+            nx == At(ts, ids.p).s IN
+        IF nx = "..." THEN LET ty == PType(ts, ids.p + 1) IN [l |-> <<Fld1(ids.l, N("Ellipsis", "", <<ty.t>>))>>, p |-> ty.p]
+        ELSE IF TypeStart(nx) THEN LET ty == PType(ts, ids.p) IN [l |-> <<Fld1(ids.l, ty.t)>>, p |-> ty.p]
+        ELSE [l |-> [i \in 1..Len(ids.l) |-> Fld1(<<>>, ids.l[i])], p |-> ids.p]          \* the identifiers were types
+      ELSE IF At(ts, p).s = "..." THEN LET ty == PType(ts, p + 1) IN [l |-> <<Fld1(<<>>, N("Ellipsis", "", <<ty.t>>))>>, p |-> ty.p]
+      ELSE LET ty == PType(ts, p) IN [l |-> <<Fld1(<<>>, ty.t)>>, p |-> ty.p]
+    IN IF At(ts, grp.p).s = "," THEN PParamList(ts, grp.p + 1, acc \o grp.l)
+       ELSE IF At(ts, grp.p).s = ")" THEN [l |-> acc \o grp.l, p |-> grp.p + 1]
+       ELSE [l |-> Append(acc, Bad), p |-> Len(ts) + 2]
+PParams(ts, p) == IF At(ts, p).s # "(" THEN Err(ts)
+                  ELSE LET l == PParamList(ts, p + 1, <<>>) IN R(N("FieldList", "(", l.l), l.p)
+\* parseSignature: parameters and optional results; p at "("; the FuncType carries attribute a
+PSignature(ts, p) ==
+  LET ps == PParams(ts, p)
+      rs == IF At(ts, ps.p).s = "(" THEN PParams(ts, ps.p)
+            ELSE IF TypeStart(At(ts, ps.p).s) THEN LET ty == PType(ts, ps.p) IN R(N("FieldList", "", <<Fld1(<<>>, ty.t)>>), ty.p)
+            ELSE R(Nil, ps.p)
+  IN [ps |-> ps.t, rs |-> rs.t, p |-> rs.p]
+\* parseFuncTypeOrLit; p at "func"
+PFuncLit(ts, p) ==
+  LET sg == PSignature(ts, p + 1)
+      ft == N("FuncType", "", <<Nil, sg.ps, sg.rs>>) IN
+  IF At(ts, sg.p).s = "{" THEN LET b == PBlock(ts, sg.p) IN R(N("FuncLit", "", <<ft, b.t>>), b.p) ELSE R(ft, sg.p)
 
 \* parseLambdaExpr: [lhs] "=>" rhs | range expression | binary expression
 PExpr(ts, p, cx) ==
@@ -578,6 +616,7 @@ POperand(ts, p, cx) ==
            IF At(ts, p + 2).s \in IdentNames /\ At(ts, p + 3).s = "}" THEN R(N("EnvExpr", "{", <<Id(At(ts, p + 2).s)>>), p + 4) ELSE Err(ts)
          ELSE IF nx.s \in IdentNames THEN R(N("EnvExpr", "", <<Id(nx.s)>>), p + 2) ELSE Err(ts)
     [] tk.s = "map" -> PType(ts, p)
+    [] tk.s = "func" -> PFuncLit(ts, p)
     [] OTHER -> Err(ts)
 
 \* (x, y, ...) before "=>" or as a command argument list
@@ -657,8 +696,8 @@ PValue(ts, p, cx, keyOk) ==
 \* ---- statements (parser.go parseStmt / parseSimpleStmtEx / parseIfStmt / parseForStmt / parseSwitchStmt)
 AssignOps == {"=", ":=", "+=", "-=", "*=", "/=", "%=", "&=", "|=", "^=", "<<=", ">>=", "&^="}
 RhsCx(lev) == Cx(FALSE, FALSE, FALSE, FALSE, lev)
-RECURSIVE PStmt(_, _), PStmtList(_, _, _), PBlock(_, _), PSimple(_, _, _, _), PLhs(_, _, _, _), PIf(_, _), PFor(_, _), PSpec(_, _, _), PGenDecl(_, _),
-          PSwitch(_, _), PClauses(_, _, _, _), PTypes(_, _, _), PCommClauses(_, _, _), PSpecs(_, _, _, _), PIdents(_, _, _)
+RECURSIVE PStmt(_, _), PStmtList(_, _, _), PSimple(_, _, _, _), PLhs(_, _, _, _), PIf(_, _), PFor(_, _), PSpec(_, _, _), PGenDecl(_, _),
+          PSwitch(_, _), PClauses(_, _, _, _), PTypes(_, _, _), PCommClauses(_, _, _), PSpecs(_, _, _, _)
 \* expectSemi: ";" is consumed, ")" "}" and the end of the text need none
 Semi(ts, r) == IF At(ts, r.p).s = ";" THEN R(r.t, r.p + 1)
                ELSE IF At(ts, r.p).s \in {")", "}", "<EOF>"} THEN r ELSE Err(ts)
@@ -803,7 +842,10 @@ PIdents(ts, p, acc) ==
   ELSE IF At(ts, p + 1).s = "," THEN PIdents(ts, p + 2, Append(acc, Id(At(ts, p).s)))
   ELSE [l |-> Append(acc, Id(At(ts, p).s)), p |-> p + 1]
 PSpec(ts, p, kw) ==
-  IF kw = "type" THEN
+  IF kw = "import" THEN
+    LET nm == IF At(ts, p).s \in IdentNames \cup {"."} THEN R(Id(At(ts, p).s), p + 1) ELSE R(Nil, p) IN
+    IF At(ts, nm.p).s \in LitNames THEN R(N("ImportSpec", "", <<nm.t, Lit(At(ts, nm.p).s)>>), nm.p + 1) ELSE Err(ts)
+  ELSE IF kw = "type" THEN
     IF At(ts, p).s \notin IdentNames THEN Err(ts)
     ELSE LET alias == At(ts, p + 1).s = "="
              ty == PType(ts, IF alias THEN p + 2 ELSE p + 1)
@@ -821,7 +863,7 @@ PGenDecl(ts, p) ==                 \* p at the keyword; includes the expectSemi 
   LET kw == At(ts, p).s IN
   IF At(ts, p + 1).s = "(" THEN
     LET ss == PSpecs(ts, p + 2, kw, <<>>) IN
-    IF At(ts, ss.p).s = ")" THEN Semi(ts, R(N("GenDecl", CASE kw = "var" -> "var(" [] kw = "const" -> "const(" [] OTHER -> "type(", ss.l), ss.p + 1))
+    IF At(ts, ss.p).s = ")" THEN Semi(ts, R(N("GenDecl", CASE kw = "var" -> "var(" [] kw = "const" -> "const(" [] kw = "import" -> "import(" [] OTHER -> "type(", ss.l), ss.p + 1))
     ELSE Err(ts)
   ELSE LET sp == Semi(ts, PSpec(ts, p + 1, kw)) IN R(N("GenDecl", kw, <<sp.t>>), sp.p)
 \* parseStmt(allowCmd = true)
@@ -851,10 +893,58 @@ PStmt(ts, p) ==
          LET st == PSimple(ts, p, Cx(s \in IdentNames \cup {"map"}, FALSE, FALSE, TRUE, 0), "label") IN
          IF st.t.k = "LabeledStmt" THEN st ELSE Semi(ts, st)
 
+\* ---- files (parser.go parseFile / parseDecl / parseFuncDeclOrCall / parseOverloadDecl / parseGlobalStmts)
+RECURSIVE PDecls(_, _, _), POverFuncs(_, _, _)
+\* `= ( f ; (T).m ; func(..) {..} )`; p behind "("
+POverFuncs(ts, p, acc) ==
+  LET s == At(ts, p).s
+      it == IF s \in IdentNames THEN R(Id(s), p + 1)
+            ELSE IF s = "func" THEN PFuncLit(ts, p)
+            ELSE IF s = "(" THEN PPrimary(ts, p, Cx(FALSE, FALSE, FALSE, FALSE, 0))
+            ELSE R(Nil, p)
+  IN IF it.t.k = "Nil" THEN [l |-> acc, p |-> p]
+     ELSE POverFuncs(ts, IF At(ts, it.p).s = ";" THEN it.p + 1 ELSE it.p, Append(acc, it.t))
+POverload(ts, p, recv, name) ==          \* p at "="
+  IF At(ts, p).s # "=" \/ At(ts, p + 1).s # "(" THEN Err(ts)
+  ELSE LET fs == POverFuncs(ts, p + 2, <<>>) IN
+       IF At(ts, fs.p).s = ")" THEN Semi(ts, R(N("OverloadFuncDecl", "", <<recv, name>> \o fs.l), fs.p + 1)) ELSE Err(ts)
+PFuncDecl(ts, p) ==                      \* p at "func"
+  IF At(ts, p + 1).s = "(" THEN
+    LET rc == PParams(ts, p + 1) IN
+    IF At(ts, rc.p).s = "." /\ At(ts, rc.p + 1).s \in IdentNames THEN POverload(ts, rc.p + 2, rc.t, Id(At(ts, rc.p + 1).s))
+    ELSE IF At(ts, rc.p).s \in IdentNames /\ At(ts, rc.p + 1).s = "(" THEN
+      LET sg == PSignature(ts, rc.p + 1)
+          b == IF At(ts, sg.p).s = "{" THEN PBlock(ts, sg.p) ELSE R(Nil, sg.p)
+      IN Semi(ts, R(N("FuncDecl", "", <<rc.t, Id(At(ts, rc.p).s), N("FuncType", "decl", <<Nil, sg.ps, sg.rs>>), b.t>>), b.p))
+    ELSE Err(ts)                         \* `func (..) {..}()` called in place: not modelled
+  ELSE IF At(ts, p + 1).s \in IdentNames THEN
+    LET name == Id(At(ts, p + 1).s) IN
+    IF At(ts, p + 2).s = "=" THEN POverload(ts, p + 2, Nil, name)
+    ELSE LET sg == PSignature(ts, p + 2)
+             b == IF At(ts, sg.p).s = "{" THEN PBlock(ts, sg.p) ELSE R(Nil, sg.p)
+         IN Semi(ts, R(N("FuncDecl", "", <<Nil, name, N("FuncType", "decl", <<Nil, sg.ps, sg.rs>>), b.t>>), b.p))
+  ELSE Err(ts)
+\* declarations up to the end of the text; anything else starts the statements of the implicit main function
+PDecls(ts, p, acc) ==
+  LET s == At(ts, p).s IN
+  IF s = "<EOF>" THEN [l |-> acc, p |-> p]
+  ELSE IF s \in {"var", "const", "type", "import"} THEN
+    LET d == PGenDecl(ts, p) IN IF d.t.k = "BadExpr" THEN [l |-> Append(acc, Bad), p |-> Len(ts) + 2] ELSE PDecls(ts, d.p, Append(acc, d.t))
+  ELSE IF s = "func" THEN
+    LET d == PFuncDecl(ts, p) IN IF d.t.k = "BadExpr" THEN [l |-> Append(acc, Bad), p |-> Len(ts) + 2] ELSE PDecls(ts, d.p, Append(acc, d.t))
+  ELSE LET b == PStmtList(ts, p, <<>>) IN
+       [l |-> Append(acc, N("FuncDecl", "shadow", <<Nil, Nil, Nil, N("BlockStmt", "bare", b.l)>>)), p |-> b.p]
+PFile(ts) ==
+  LET pkg == At(ts, 1).s = "package" /\ At(ts, 2).s \in IdentNames
+      st == IF pkg THEN Semi(ts, R(Id(At(ts, 2).s), 3)) ELSE R(Nil, 1)
+      ds == PDecls(ts, st.p, <<>>)
+  IN R(N("File", IF pkg THEN "" ELSE "nopkg", <<st.t>> \o ds.l), ds.p)
+
 \* Entry points.  "expr": parser.ParseExpr = parseRHS.  "stmt": one statement, parseStmt(allowCmd = true)
 \* (allowCmd survives only if the statement starts with an identifier or `map`).
 ParseTop(ts, ctx) ==
-  LET r == IF ctx = "expr" THEN PExpr(ts, 1, Cx(FALSE, FALSE, FALSE, FALSE, 0)) ELSE PStmt(ts, 1)
+  LET r == IF ctx = "expr" THEN PExpr(ts, 1, Cx(FALSE, FALSE, FALSE, FALSE, 0))
+           ELSE IF ctx = "file" THEN PFile(ts) ELSE PStmt(ts, 1)
   IN IF r.p = Len(ts) + 1 THEN r.t ELSE Bad
 
 -----------------------------------------------------------------------------
@@ -953,16 +1043,17 @@ FC == [ prec    |-> {"a", "b", "b||", "b&&", "b==", "b->", "b+", "b*", "u-", "u!
         atoms   |-> {"a", "1", "s", "1.5", "raw", "cs", "pys", "2i", "3r", "chr", "unit", "env", "envb", "dom", "b+", "b*", "u-", "star", "ew!", "sel", "call1", "idx"},
         slidx   |-> {"a", "1", "sl1idx", "b+", "u-", "ew?"},      \* (no "*", "(", "[" may follow `[a][b]`: they would start a type)
         stmt    |-> {"a", "f", "1", "b+", "b<", "u-", "u<-", "star", "ew!", "call1", "idx", "cl1", "cl0", "lam1"},  \* + SCtors
+        decl    |-> {"a", "f", "1", "cl0"},                       \* file context: FileTrees below
         cmd     |-> {"f", "a", "1", "s", "b-", "b*", "b&", "u-", "u&", "u<-", "u^", "u+", "u!", "star", "ew!", "sel", "call1", "idx",
                      "sl2", "cl1", "lam1", "lamP", "env", "cmd1", "cmd2", "cmd1e"} ]
-FCtx(f) == IF f \in {"cmd", "stmt"} THEN "stmt" ELSE IF f = "samples" THEN "file" ELSE "expr"
+FCtx(f) == IF f \in {"cmd", "stmt"} THEN "stmt" ELSE IF f \in {"samples", "decl"} THEN "file" ELSE "expr"
 GenFoci == Foci \ {"samples"}
 AllFoci       == DOMAIN FC \cup {"samples"}   \* "samples": the fixed all-kinds sample trees (rendered and traversed only)
 DevFoci       == AllFoci
 SampleFoci    == {"samples"}
-QuickSizes    == [binary |-> 5, prec |-> 4, ops |-> 3, postfix |-> 3, lambda |-> 4, lit |-> 3, atoms |-> 3, slidx |-> 4, stmt |-> 3, cmd |-> 3]
-ThoroughSizes == [binary |-> 7, prec |-> 5, ops |-> 4, postfix |-> 4, lambda |-> 5, lit |-> 4, atoms |-> 3, slidx |-> 5, stmt |-> 4, cmd |-> 4]
-SmallSizes    == [binary |-> 5, prec |-> 3, ops |-> 3, postfix |-> 3, lambda |-> 3, lit |-> 3, atoms |-> 2, slidx |-> 3, stmt |-> 3, cmd |-> 3]
+QuickSizes    == [binary |-> 5, prec |-> 4, ops |-> 3, postfix |-> 3, lambda |-> 4, lit |-> 3, atoms |-> 3, slidx |-> 4, decl |-> 1, stmt |-> 3, cmd |-> 3]
+ThoroughSizes == [binary |-> 7, prec |-> 5, ops |-> 4, postfix |-> 4, lambda |-> 5, lit |-> 4, atoms |-> 3, slidx |-> 5, decl |-> 1, stmt |-> 4, cmd |-> 4]
+SmallSizes    == [binary |-> 5, prec |-> 3, ops |-> 3, postfix |-> 3, lambda |-> 3, lit |-> 3, atoms |-> 2, slidx |-> 3, decl |-> 1, stmt |-> 3, cmd |-> 3]
 
 Gen(n, ctors, prev) ==
      (IF n = 1 THEN {AtomOf(c) : c \in ctors \cap Atoms} ELSE {})
@@ -1173,7 +1264,42 @@ StmtFixed == { N("DeclStmt", "", <<N("GenDecl", "type", <<N("TypeSpec", "", <<Id
                N("DeclStmt", "", <<N("GenDecl", "var", <<N("ValueSpec", "", <<Lst(",", <<Id("a"), Id("b")>>), TId, Nil, Lst(",", <<>>)>>)>>)>>),
                N("DeclStmt", "", <<N("GenDecl", "const(", <<N("ValueSpec", "", <<Lst(",", <<Id("a")>>), Nil, Nil, Lst(",", <<Lit("1")>>)>>),
                                                             N("ValueSpec", "", <<Lst(",", <<Id("b")>>), TId, Nil, Lst(",", <<Lit("2")>>)>>)>>)>>) }
+\* FILES (focus "decl", file context): function declarations with every signature form around each small statement,
+\* with and without package clause / imports / preceding declarations / trailing script statements, overloads
+FP(fs) == N("FieldList", "(", fs)
+StarT == N("StarExpr", "", <<TId>>)
+DSigs == { [recv |-> Nil, ps |-> FP(<<>>), rs |-> Nil],
+           [recv |-> Nil, ps |-> FP(<<Fld1(<<Id("a")>>, TId)>>), rs |-> N("FieldList", "", <<Fld1(<<>>, TId)>>)],
+           [recv |-> Nil, ps |-> FP(<<Fld1(<<Id("a"), Id("b")>>, TId), Fld1(<<Id("c")>>, N("Ellipsis", "", <<TId>>))>>),
+                          rs |-> FP(<<Fld1(<<>>, TId), Fld1(<<>>, StarT)>>)],
+           [recv |-> Nil, ps |-> FP(<<Fld1(<<>>, TId), Fld1(<<>>, N("ArrayType", "", <<Nil, TId>>))>>), rs |-> Nil],
+           [recv |-> FP(<<Fld1(<<Id("x")>>, StarT)>>), ps |-> FP(<<Fld1(<<Id("a")>>, N("MapType", "", <<TId, TId>>))>>),
+                          rs |-> FP(<<Fld1(<<Id("e")>>, TId)>>)],
+           [recv |-> FP(<<Fld1(<<>>, TId)>>), ps |-> FP(<<>>), rs |-> Nil] }
+FD(sg, body) == N("FuncDecl", "", <<sg.recv, Id("f"), N("FuncType", "decl", <<Nil, sg.ps, sg.rs>>), body>>)
+Sig0 == CHOOSE sg \in DSigs : sg.recv = Nil /\ sg.ps.c = <<>>
+DeclStmts(f) == {st \in UNION {{SMk(c, <<x>>) : x \in L1[f]} : c \in SAr1} : StmtOK(st)}
+ImportD == N("GenDecl", "import", <<N("ImportSpec", "", <<Nil, Lit("\"p\"")>>)>>)
+VarD == N("GenDecl", "var", <<N("ValueSpec", "", <<Lst(",", <<Id("a")>>), TId, Nil, Lst(",", <<Lit("1")>>)>>)>>)
+ShadowOf(ss) == N("FuncDecl", "shadow", <<Nil, Nil, Nil, N("BlockStmt", "bare", ss)>>)
+FixedFiles == {
+  N("File", "", <<Id("main"), ImportD,
+                  N("GenDecl", "import(", <<N("ImportSpec", "", <<Id("x"), Lit("\"p\"")>>), N("ImportSpec", "", <<Id("_"), Lit("\"s\"")>>)>>),
+                  N("GenDecl", "type", <<N("TypeSpec", "", <<Id("L"), Nil, N("ArrayType", "", <<Nil, TId>>)>>)>>),
+                  FD(Sig0, Nil)>>),
+  N("File", "nopkg", <<Nil, N("OverloadFuncDecl", "", <<Nil, Id("g"), Id("f"), N("SelectorExpr", "", <<StarT, Id("f")>>),
+                                   N("FuncLit", "", <<N("FuncType", "", <<Nil, FP(<<Fld1(<<Id("a")>>, TId)>>), Nil>>), N("BlockStmt", "", <<>>)>>)>>),
+                       N("OverloadFuncDecl", "", <<FP(<<Fld1(<<>>, TId)>>), Id("g"), Id("f"), Id("a")>>)>>),
+  N("File", "nopkg", <<Nil, N("GenDecl", "const(", <<N("ValueSpec", "", <<Lst(",", <<Id("a")>>), Nil, Nil, Lst(",", <<Lit("1")>>)>>),
+                                                      N("ValueSpec", "", <<Lst(",", <<Id("b")>>), TId, Nil, Lst(",", <<Lit("2")>>)>>)>>),
+                       ShadowOf(<<SXS(N("CallExpr", "cmd", <<Id("f"), Id("a"), Lit("1")>>)), N("ReturnStmt", "", <<>>)>>)>>) }
+FileTrees(f) ==
+       {N("File", "nopkg", <<Nil, FD(sg, N("BlockStmt", "", <<st>>))>>) : sg \in DSigs, st \in DeclStmts(f)}
+  \cup {N("File", "", <<Id("main"), ImportD, VarD, FD(Sig0, N("BlockStmt", "", <<st, N("ReturnStmt", "", <<>>)>>))>>) : st \in DeclStmts(f)}
+  \cup {N("File", "nopkg", <<Nil, FD(Sig0, N("BlockStmt", "", <<>>)), ShadowOf(<<st>>)>>) : st \in DeclStmts(f)}
+  \cup FixedFiles
 Universe(f) == IF f = "samples" THEN Samples
+               ELSE IF f = "decl" THEN FileTrees(f)
                ELSE IF f = "stmt" THEN {t \in StmtTrees(f) : StmtOK(t)} \cup {InBlock(d) : d \in StmtFixed}
                ELSE IF FCtx(f) = "expr" THEN UpTo(f)
                ELSE {N("ExprStmt", "", <<e>>) : e \in {x \in UpTo(f) : x.k \notin {"LambdaExpr", "CompositeLit", "SliceLit"}} \cup CmdTrees(f)}
